@@ -161,6 +161,10 @@ def run_deductive(run, keys, budget=None, only=None, companion=True):
     missing = sorted(relevant_expected - now_keys)
     discharged_keys = sorted(k for k, sts in per_key_status.items() if all(s == "discharged" for s in sts))
     comp = run_companion(run, keys, functions) if companion else None
+    run._ded_totals = getattr(run, "_ded_totals", None) or {"by_backend": Counter(), "solver_ms_total": 0, "n_undecided": 0, "budget_s": budget}
+    run._ded_totals["by_backend"].update(by_backend)
+    run._ded_totals["solver_ms_total"] += solver_ms
+    run._ded_totals["n_undecided"] += len(undecided)
     return {
         "runtime_companion": comp,
         "obligations": obligations,
